@@ -732,6 +732,7 @@ class Engine(object):
         self.memo_prod = {}
         self.witness_dirty = False
         self.qp_memo = {}
+        self.pm = {}  # per-path scratch memo for the models
         self.ivl = {}  # var id -> (lo, hi) interval known from the value box (None = unbounded)
 
     # ------------------------------------------------------------------ variables
@@ -784,6 +785,7 @@ class Engine(object):
         if hi is not None:
             cons.append(x <= hi)
         self._init_witness(i, name, cons)
+        self.ivl[i] = (None if lo is None else _frac(lo), None if hi is None else _frac(hi))
         for c in cons:
             self.assume(c)
         return x
@@ -1031,6 +1033,32 @@ class Engine(object):
         if hi is not None:
             self.solver.add(_b(_cmp(x.sub(Lin.const(hi)), "le")).z3(self))
 
+    def _integral_split(self, l, c):
+        """l = c*A + B with A an integer-valued form (terms of integer variables whose coefficient is a multiple of c)
+        and B the rest; returns (A, B, lo, hi) with the interval of B, or None when unknown"""
+        c = Fraction(c)
+        A, B = {}, {}
+        for v, k in l.t.items():
+            if self.vsort[v] == "I" and (k / c).denominator == 1:
+                A[v] = k / c
+            else:
+                B[v] = k
+        import math as _m
+
+        ca = Fraction(_m.floor(l.c / c))
+        cb = l.c - ca * c
+        Bl = Lin(B, cb)
+        lo, hi = self.lin_interval(Bl)
+        if lo is None or hi is None:
+            return None
+        # shift whole multiples of c from B into A when B's interval lies inside one period
+        sh = Fraction(_m.floor(lo / c))
+        if sh and hi - sh * c < c:
+            Bl = Lin(B, cb - sh * c)
+            ca += sh
+            lo, hi = lo - sh * c, hi - sh * c
+        return Lin(A, ca), Bl, lo, hi
+
     def _depends_nl(self, *lins):
         return bool(self.nl) and any((set(l.t) & self.nl) for l in lins)
 
@@ -1096,6 +1124,17 @@ class Engine(object):
             return l
         if self._depends_nl(l):
             self.gap("floor of a non-linear quantity")
+        sp = self._integral_split(l, 1)
+        if sp is not None and sp[2] >= 0 and sp[3] < 1:
+            return sp[0]  # the fractional rest provably lies in [0, 1): the floor is the integral part (exact, no solver)
+        if sp is not None and sp[3] - sp[2] < 2 and sp[1].t:
+            # the rest spans at most a few integer cells: FORK on the cell instead of introducing an integer unknown
+            import math
+
+            j0, j1 = math.floor(sp[2]), math.floor(sp[3])
+            for j in range(j0, j1 + 1):
+                if j == j1 or self.branch(_cmp(sp[1].sub(Lin.const(j + 1)), "lt")):
+                    return sp[0].add(Lin.const(j))
         k = l.key()
         if k in self.memo_floor:
             return Lin.var(self.memo_floor[k])
@@ -1103,6 +1142,8 @@ class Engine(object):
 
         i = self._aux("floor", "I", lambda w: Fraction(math.floor(l.eval(w))))
         self.memo_floor[k] = i
+        lo_, hi_ = self.lin_interval(l)
+        self.ivl[i] = (None if lo_ is None else Fraction(math.floor(lo_)), None if hi_ is None else Fraction(math.floor(hi_)))
         f = Lin.var(i)
         # f <= l < f + 1
         c = And(_cmp(f.sub(l), "le"), _cmp(l.sub(f).sub(Lin.const(1)), "lt"))
@@ -1161,9 +1202,33 @@ class Engine(object):
         if not l.t:
             q, r = divmod(int(l.c), c)
             return Lin.const(q), Lin.const(r)
+        if l.c.denominator == 1 and l.c % c == 0 and all(k.denominator == 1 and k % c == 0 and self.vsort[v] == "I" for v, k in l.t.items()):
+            return l.scale(Fraction(1, c)), Lin.const(0)  # every term is a multiple of c
+        sp = self._integral_split(l, c)
+        if sp is not None and sp[2] >= 0 and sp[3] <= c - 1:
+            return sp[0], sp[1]  # remainder provably in [0, c): quotient and remainder read off syntactically
+        if sp is not None and sp[3] - sp[2] < 2 * c and sp[1].t:
+            import math
+
+            j0, j1 = math.floor(sp[2] / c), math.floor(sp[3] / c)
+            for j in range(j0, j1 + 1):
+                if j == j1 or self.branch(_cmp(sp[1].sub(Lin.const((j + 1) * c)), "lt")):
+                    return sp[0].add(Lin.const(j)), sp[1].sub(Lin.const(j * c))
+        mk = ("divmod", l.key(), c)
+        if mk in self.memo_prod:
+            qi, ri = self.memo_prod[mk]
+            return Lin.var(qi), Lin.var(ri)
         qi = self._aux("div", "I", lambda w: Fraction(int(l.eval(w)) // c))
         ri = self._aux("mod", "I", lambda w: Fraction(int(l.eval(w)) % c))
+        self.memo_prod[mk] = (qi, ri)
         q, r = Lin.var(qi), Lin.var(ri)
+        self.ivl[ri] = (F0, Fraction(c - 1))
+        lo_, hi_ = self.lin_interval(l)
+        if lo_ is not None and hi_ is not None:
+            import math as _m
+
+            self.ivl[qi] = (Fraction(_m.floor(lo_ / c)), Fraction(_m.floor(hi_ / c)))
+            self.solver.add(And(_cmp(Lin.const(self.ivl[qi][0]).sub(q), "le"), _cmp(q.sub(Lin.const(self.ivl[qi][1])), "le")).z3(self))
         con = And(_cmp(l.sub(q.scale(Fraction(c))).sub(r), "eq"), _cmp(r.neg(), "le"), _cmp(r.sub(Lin.const(c - 1)), "le"))
         self.solver.add(con.z3(self))
         return q, r
